@@ -58,6 +58,24 @@ def run_e1(res, tier):
             r = model.e1_interface_record("if:%s:%s" % (kind, s), i, want="items,bodies=" + "|".join(TABLE_FN.values()))
             recs.append(r)
             meta[r["id"]] = ("interface", kind, s, r["item"])
+    # pairs of names: an underscore in front of a digit disappears on the wire, so the order of two method identifiers can differ
+    # from the order of their wire names (`a11` < `a_1` but "a1" < "a11"); the published list must be sorted as the wire names are
+    small = [x for x in small_idents(3) if not x.startswith("_") and not x.endswith("_")]
+    for s1 in small:
+        if "_1" not in s1:
+            continue
+        for s2 in small:
+            if s2 == s1:
+                continue
+            ms = (Method("exec", s1, ()), Method("exec", "zz_other", ()), Method("exec", s2, (Arg("a", "u32"),)))
+            c = Contract(methods=(Method("instantiate", "inst", ()),) + ms)
+            r = model.e1_contract_record("ctp:%s:%s" % (s1, s2), c, want="items,bodies=" + "|".join(TABLE_FN.values()))
+            recs.append(r)
+            meta[r["id"]] = ("contract", "exec", s1 + "+" + s2, r["item"])
+            i = Interface(name="If", module="ifc", methods=ms, custom="msg=Empty, query=Empty")
+            r = model.e1_interface_record("ifp:%s:%s" % (s1, s2), i, want="items,bodies=" + "|".join(TABLE_FN.values()))
+            recs.append(r)
+            meta[r["id"]] = ("interface", "exec", s1 + "+" + s2, r["item"])
     obs = core.e1_run(recs, "c03-" + tier)
     rejected = 0
     for o in obs:
@@ -73,6 +91,10 @@ def run_e1(res, tier):
         variants = variants_of(items, kind, where)
         if table is None or variants is None:
             res.violation({"kind": "table", "cls": "missing", "pid": o["id"], "program": src, "what": "%s: table or enum missing" % o["id"]})
+            continue
+        if len(set(variants)) != len(variants):
+            # two methods of one part map to one variant (`a_1` / `a1`): not a valid program (rustc rejects the duplicate variant)
+            res.outcome(("invalid_pair", True))
             continue
         wires = sorted(serde_snake(v) for v in variants)
         res.outcome(("table_eq", table == wires))
